@@ -3,7 +3,7 @@ From Coq Require Import Permutation Sorting.Sorted.
 From Mxj Require Import Spec.SeqSpec Proofs.StrLemmas Proofs.C04Sort Proofs.C04Str Proofs.C04Map
      Proofs.C04Dec Proofs.C04Enc Proofs.C04EncMain Proofs.C04Tok.
 
-Lemma node_ok_names_ne o alone d : node_ok o alone d = true -> names_ne d = true.
+Lemma node_ok_names_ne o d : node_ok o d = true -> names_ne d = true.
 Proof.
   induction d as [nm a text kids IH|x|x|t i] using node_ind2; intros H; try reflexivity.
   cbn [node_ok] in H.
@@ -23,8 +23,8 @@ Notation o := (seq_o e).
 Lemma root_not_list d : match node_val pf skip e d with VList _ => False | _ => True end.
 Proof. destruct (nval_shape pf skip e d) as [[m ->]| ->]; exact I. Qed.
 
-Lemma roundtrip_alone d :
-  dom04_alone o d = true ->
+Lemma roundtrip_all d :
+  dom04 o d = true ->
   exists m its,
     seq_decode pf skip o false (rawtoks_of d) TermEOF = Ok m /\
     seq_encode o m = Ok its /\
@@ -32,10 +32,10 @@ Lemma roundtrip_alone d :
     beautify_items pf skip o (rawtoks_of d) TermEOF = Ok its /\
     forall ws, normalize (rawtoks_of_items (insert_ws ws its)) = normalize (map rt_of_tok (rawtoks_of d)).
 Proof.
-  unfold dom04_alone. intros H. apply andb_true_iff in H. destruct H as [He Hok].
+  unfold dom04. intros H. apply andb_true_iff in H. destruct H as [He Hok].
   destruct d as [nm a text kids| | |]; try discriminate He.
   set (d := NElem nm a text kids) in *.
-  assert (Hne := node_ok_names_ne o true d Hok).
+  assert (Hne := node_ok_names_ne o d Hok).
   assert (Hdec := seq_decode_doc pf skip e nm a text kids Hne). fold d in Hdec.
   assert (Henc := proj2 (enc_all pf skip e d) Hok eq_refl). cbn [kid_key] in Henc.
   exists (VMap [(xfull nm, node_val pf skip e d)]), (items_of e true d).
@@ -63,28 +63,18 @@ Proof.
   apply (sattrs_attr_perm e _ a m); [reflexivity|exact P].
 Qed.
 
-(* ---------------- the full domain is refuted by the code ---------------- *)
 Definition xn (x : string) : xname := {| xspace := []; xlocal := s x |}.
-(* <a>text<b/></a> *)
+(* <a>text<b/></a>: the document on which the encoders panicked before fix 3cc484a *)
 Definition witness_text_before_child : node :=
   NElem (xn "a") [] (s "text") [NElem (xn "b") [] [] []].
 
-Lemma roundtrip_refuted :
-  exists d, dom04 (seq_o true) d = true /\
-    exists m, seq_decode (fun _ => None) (fun _ => false) (seq_o true) false (rawtoks_of d) TermEOF = Ok m /\
-              seq_encode (seq_o true) m = Panic /\ seq_encode_indent (seq_o true) m = Panic.
-Proof.
-  exists witness_text_before_child. split; [vm_compute; reflexivity|].
-  eexists. split; [vm_compute; reflexivity|]. split; vm_compute; reflexivity.
-Qed.
-
-(* on the proved sub-domain the encoder does not panic and does not fail *)
-Lemma encode_total_alone pf skip e d :
-  dom04_alone (seq_o e) d = true ->
+(* the decoder's output never makes an encoder panic or fail on the domain *)
+Lemma encode_total pf skip e d :
+  dom04 (seq_o e) d = true ->
   exists m, seq_decode pf skip (seq_o e) false (rawtoks_of d) TermEOF = Ok m /\
             seq_encode (seq_o e) m <> Panic /\ seq_encode_indent (seq_o e) m <> Panic.
 Proof.
-  intros H. destruct (roundtrip_alone pf skip e d H) as (m & its & Hd & E1 & E2 & _).
+  intros H. destruct (roundtrip_all pf skip e d H) as (m & its & Hd & E1 & E2 & _).
   exists m. split; [exact Hd|]. rewrite E1, E2. split; discriminate.
 Qed.
 
@@ -100,4 +90,4 @@ Definition example_doc : node :=
       NProcInst (s "pi") (s "data");
       NElem (xn "a") [] (s "a<b") [];
       NDirective (s "D x");
-      NElem (xnp "ns" "c") [] [] [NElem (xn "a") [] [] []; NElem (xn "b") [] (s "q""q") []] ].
+      NElem (xnp "ns" "c") [] (s "lead ") [NElem (xn "a") [] [] []; NElem (xn "b") [] (s "q""q") []] ].
